@@ -30,6 +30,7 @@ def run(rep, idx, tier):
     # the window list the decoder decodes with is the map's current one (no stale memo in the queries it uses)
     from .c02 import query_coherence
     query_coherence(rep, idx, rule="C07.2", only=("window_patterns", "windows", "get", "overlaps", "items"))
+    glue.pairwise_reductions(rep, "C07.4", idx, "wishbone/bus.py")
     if not require_supported(rep, "C07.1", c):
         return
     r = glue.decoder_roles(rep, "C07.2", c, "self.bus.adr")
